@@ -7,6 +7,7 @@ import (
 	"errors"
 	"fmt"
 	"net"
+	"reflect"
 	"sync"
 	"time"
 
@@ -63,6 +64,15 @@ func (h *Handler) Handle(ctx context.Context, req packet.Request) (packet.Respon
 	if h.ErrorFromUnit > 0 && len(raw) > 6 && raw[6] >= h.ErrorFromUnit {
 		return nil, packet.NewErrorParseTCP(ErrorCodeFor(raw[6]), "handler refuses this unit")
 	}
+	if mode == "mutate-error" || mode == "mutate-typed-error" {
+		// a gateway handler re-addresses the request object it was given (own upstream transaction id, mapped unit id) before
+		// forwarding it, and then fails: the exception must still be addressed to the request as it was received
+		readdress(req)
+		if mode == "mutate-typed-error" {
+			return nil, packet.NewErrorParseTCP(code, "upstream says no")
+		}
+		return nil, errors.New("upstream failed")
+	}
 	switch mode {
 	case "typed-error":
 		return nil, packet.NewErrorParseTCP(code, "handler says no")
@@ -83,6 +93,33 @@ func (h *Handler) Handle(ctx context.Context, req packet.Request) (packet.Respon
 	reply := h.Dev.Answer(spec.TCP, raw)
 	h.mu.Unlock()
 	return RawResponse{B: reply, FC: req.FunctionCode()}, nil
+}
+
+// readdress overwrites the exported TransactionID and UnitID fields of a parsed TCP request (the parsers return pointers to structs
+// embedding MBAPHeader and the function's request struct).
+func readdress(req packet.Request) {
+	v := reflect.ValueOf(req)
+	if v.Kind() != reflect.Ptr || v.IsNil() {
+		return
+	}
+	var walk func(x reflect.Value)
+	walk = func(x reflect.Value) {
+		if x.Kind() != reflect.Struct {
+			return
+		}
+		for i := 0; i < x.NumField(); i++ {
+			f, name := x.Field(i), x.Type().Field(i).Name
+			switch {
+			case name == "TransactionID" && f.CanSet() && f.Kind() == reflect.Uint16:
+				f.SetUint(uint64(uint16(f.Uint()) ^ 0x5A5A))
+			case name == "UnitID" && f.CanSet() && f.Kind() == reflect.Uint8:
+				f.SetUint(uint64(uint8(f.Uint()) ^ 0xE6))
+			default:
+				walk(f)
+			}
+		}
+	}
+	walk(v.Elem())
 }
 
 // ErrorCodeFor is the exception code the handler uses for an error unit.
